@@ -1403,6 +1403,79 @@ theorem C10_nothing_after_a_panic (vis : Vis) (co : Str → Str) (d : Disk) (m :
   (runFrom_gone vis co steps _ rfl).1
 
 
+/-! ## storing over leftovers; header fields that speak about the envelope -/
+
+/-- `os.Create` + write + close: the file holds what was written, whatever a file of that name held
+before (longer, of the same length, shorter, empty, absent). -/
+theorem createFile_eq (old : Option Bytes) (new : Bytes) : createFile old new = new := by
+  simp [createFile, writeOver]
+
+theorem acceptOver_eq (vis : Vis) (co : Str → Str) (pre : Leftovers) (a : Accepted) :
+    acceptOver vis co pre a = accept vis co a := by
+  simp [acceptOver, accept, createFile_eq, storeMeta]
+
+/-- **C10 (leftovers).** The store step is "file := new content": whatever files of the new
+message's own names (`<id>.header`, `<id>.body`, `<id>.meta.new`) the spool directory holds when the
+queue stores it - any bytes, any length - right after acceptance the header file is the accepted
+header as `WriteHeader` writes it, the body file the accepted body, the metadata the encoded
+accepted metadata, and the whole life of the message (state and events of every history: first
+attempt, retries, restarts, reports, panics) is the one of a message stored into an empty
+directory - so every other theorem of this file holds for it unchanged. -/
+theorem C10_store_overwrites_leftovers (vis : Vis) (co : Str → Str) (pre : Leftovers) (a : Accepted)
+    (steps : List Step) :
+    (∃ d, (acceptOver vis co pre a).1.disk = some d ∧ d.hdrFile = writeHeader a.hdr ∧
+      d.bodyFile = a.body ∧ d.metaFile = encodeMeta vis co a.qmeta) ∧
+    runOver vis co pre a steps = run vis co a steps := by
+  refine ⟨⟨⟨createFile pre.hdr (writeHeader a.hdr), createFile pre.body a.body,
+      storeMeta pre.metaNew (encodeMeta vis co a.qmeta)⟩, rfl, createFile_eq pre.hdr _, createFile_eq pre.body _, rfl⟩, ?_⟩
+  simp [runOver, run, acceptOver_eq]
+
+/-- ... in particular the round trip: every attempt of a message stored over leftovers is handed the
+accepted header and body byte for byte (and the accepted envelope). -/
+theorem C10_roundtrip_over_leftovers (co : Str → Str) (pre : Leftovers) (a : Accepted)
+    (hwf : ∀ f ∈ a.hdr, WFField f) (hs : EnvelopeSafe co a) (steps : List Step)
+    (hsteps : ∀ st ∈ steps, StepOK st) :
+    seens (runOver genVis co pre a steps).2 = spec a a.qmeta.to (attemptsOf steps) := by
+  rw [(C10_store_overwrites_leftovers genVis co pre a steps).2]
+  exact C10_roundtrip co a hwf hs steps hsteps
+
+/-- Why `O_TRUNC` matters (NOT what the code does): written without truncation over a longer file,
+the tail of the old file survives - the "body" would be the accepted one followed by stale bytes. -/
+example : writeOver false (some [1, 2, 3, 4, 5]) [9, 9] = [9, 9, 3, 4, 5] := by decide
+example : writeOver true (some [1, 2, 3, 4, 5]) [9, 9] = [9, 9] := by decide
+example : writeOver false (some [1]) [9, 9] = [9, 9] := by decide
+
+/-- **C10 (the override is the accepted flag, not the header's).** Two messages accepted with the
+same metadata are handed over with the same TLS-Required override (and sender, SMTPUTF8, REQUIRETLS,
+original-recipient mapping) in every attempt of every history, whatever their headers say - a
+`TLS-Required: No` field in any spelling, none at all: the header is never consulted for the
+envelope, neither in the first attempt nor when the message is read back from the spool. -/
+theorem C10_override_does_not_depend_on_the_header (co : Str → Str) (a b : Accepted)
+    (hq : a.qmeta = b.qmeta) (hwfa : ∀ f ∈ a.hdr, WFField f) (hwfb : ∀ f ∈ b.hdr, WFField f)
+    (hs : EnvelopeSafe co a) (steps : List Step) (hsteps : ∀ st ∈ steps, StepOK st) :
+    (∀ s ∈ seens (run genVis co a steps).2, s.tlsRequireOverride = a.qmeta.msgMeta.tlsRequireOverride) ∧
+    (∀ s ∈ seens (run genVis co b steps).2, s.tlsRequireOverride = a.qmeta.msgMeta.tlsRequireOverride) := by
+  have hsb : EnvelopeSafe co b := ⟨hq ▸ hs.sender, hq ▸ hs.to, hq ▸ hs.orc⟩
+  have key : ∀ (c : Accepted) (to : List Str) (l : List ((List Str → Bool) × (List Str → List Str))),
+      ∀ s ∈ spec c to l, s.tlsRequireOverride = c.qmeta.msgMeta.tlsRequireOverride := by
+    intro c to l
+    induction l generalizing to with
+    | nil => intro s hs; simp [spec] at hs
+    | cons x rest ih =>
+      obtain ⟨acc, next⟩ := x
+      intro s hs
+      simp only [spec, List.mem_cons] at hs
+      rcases hs with rfl | hs
+      · rfl
+      · split at hs
+        · simp at hs
+        · exact ih _ s hs
+  constructor
+  · rw [C10_roundtrip co a hwfa hs steps hsteps]
+    exact key a _ _
+  · rw [C10_roundtrip co b hwfb hsb steps hsteps, hq]
+    exact key b _ _
+
 /-! ## non-vacuity -/
 
 /-- "Subject: hi" CRLF SP "there" CRLF - a folded field -/
@@ -1553,5 +1626,24 @@ theorem C10_envelope_safe_is_needed :
 example : (seens (run (fun p => p != ["MsgMeta", "TLSRequireOverride"]) id exAccepted
       [.attempt (fun _ => true) id none, .attempt (fun _ => true) id none]).2).map (·.tlsRequireOverride) = [true, false] := by
   decide
+
+
+/-- a message whose header carries `TLS-Required: No` accepted WITHOUT the override (and with
+REQUIRETLS): the override is off in every attempt, the one after the restart included -/
+def exAcceptedT : Accepted :=
+  { exAccepted with
+    hdr := [[84,76,83,45,82,101,113,117,105,114,101,100,58,32,78,111,13,10]],
+    qmeta := { exAccepted.qmeta with msgMeta := { exAccepted.qmeta.msgMeta with requireTLS := true, tlsRequireOverride := false } } }
+
+example : (∀ f ∈ exAcceptedT.hdr, WFField f) := by
+  intro f hf
+  exact (C10_wfFieldB_iff f).mp (by revert f hf; decide)
+
+example : (seens (run (fun _ => true) exCo exAcceptedT exSteps).2).map (fun s => s.tlsRequireOverride) =
+    (seens (run (fun _ => true) exCo exAcceptedT exSteps).2).map (fun _ => false) := by decide
+
+/-- stored over a longer leftover header, a longer leftover body and a leftover `.meta.new` -/
+example : ((acceptOver (fun _ => true) exCo ⟨some (List.replicate 100 7), some (List.replicate 50 8), some [1, 2, 3]⟩ exAccepted).1.disk.map
+    fun d => (d.hdrFile == writeHeader exAccepted.hdr, d.bodyFile == exAccepted.body)) = some (true, true) := by decide
 
 end MaddyVerif.C10
